@@ -11,6 +11,9 @@ pub fn dispatch(cmd: &str, c: &Value) -> Value {
         "kmer_inv" => kmer_inv(c),
         "tuple_roundtrip" => tuple_roundtrip(c),
         "lz_roundtrip" => lz_roundtrip(c),
+        "segment" => segment(c),
+        #[cfg(ekg_ragc_verif)]
+        "range_query" => range_query(c),
         _ => json!({"error": format!("unknown command {}", cmd)}),
     }
 }
@@ -69,4 +72,88 @@ pub fn lz_roundtrip(c: &Value) -> Value {
     let dec = if enc.is_empty() { r.clone() } else { lz.decode(&enc) };
     let ok = dec == t && !enc.contains(&0xFF);
     json!({ "enc": enc, "dec": dec, "ok": ok })
+}
+
+// ---------------------------------------------------------------- C10 segmentation
+pub fn segment(c: &Value) -> Value {
+    use ragc_core::segment::{split_at_splitters, split_at_splitters_with_size, MISSING_KMER};
+    let contig = bytes(&c["contig"]);
+    let k = c["k"].as_u64().unwrap() as usize;
+    let spl: ahash::AHashSet<u64> = c["splitters"].as_array().unwrap().iter().map(|x| x.as_str().unwrap().parse::<u64>().unwrap()).collect();
+    let segs = if c["fn"].as_str().unwrap() == "split_at_splitters" { split_at_splitters(&contig, &spl, k) } else { split_at_splitters_with_size(&contig, &spl, k, 1000) };
+    // native statement of the C10 relations
+    let mut ok = !segs.is_empty();
+    let mut why = String::new();
+    let mut pos = 0usize;
+    let pack = |w: &[u8]| -> Option<(u64, bool)> {
+        if w.iter().any(|&b| b > 3) { return None; }
+        let mut d = 0u64; let mut r = 0u64;
+        for j in 0..k { d |= (w[j] as u64) << (62 - 2 * j); r |= ((3 - w[k - 1 - j]) as u64) << (62 - 2 * j); }
+        Some((d.min(r), d <= r))
+    };
+    let mut bounds = vec![];
+    for (i, s) in segs.iter().enumerate() {
+        let l = s.data.len();
+        if i > 0 && l < k { ok = false; why = format!("segment {} shorter than k", i); break; }
+        if i > 0 && pos < k { ok = false; why = "overlap before start".into(); break; }
+        let start = if i == 0 { pos } else { pos - k };
+        if start + l > contig.len() || s.data[..] != contig[start..start + l] { ok = false; why = format!("segment {} not contig[{}..{}]", i, start, start + l); break; }
+        bounds.push((start, start + l));
+        pos = start + l;
+    }
+    if ok && pos != contig.len() { ok = false; why = "segments do not end at the contig end".into(); }
+    if ok {
+        if segs[0].front_kmer != MISSING_KMER || segs[segs.len() - 1].back_kmer != MISSING_KMER || segs[0].front_kmer_is_dir || segs[segs.len() - 1].back_kmer_is_dir { ok = false; why = "end k-mers not missing".into(); }
+        for i in 0..segs.len().saturating_sub(1) {
+            let en = bounds[i].1;
+            match pack(&contig[en - k..en]) {
+                None => { ok = false; why = format!("boundary {} contains non-ACGT", i); }
+                Some((can, isdir)) => {
+                    if !spl.contains(&can) { ok = false; why = format!("boundary {} k-mer not a splitter", i); }
+                    if segs[i].back_kmer != can || segs[i + 1].front_kmer != can || segs[i].back_kmer_is_dir != isdir || segs[i + 1].front_kmer_is_dir != isdir { ok = false; why = format!("boundary {} k-mer record wrong", i); }
+                }
+            }
+        }
+        for (i, &(_st, en)) in bounds.iter().enumerate() {
+            let first_end = (if i > 0 { bounds[i - 1].1 } else { 0 }) + k - 1;
+            let last_end = if i + 1 < bounds.len() { en as i64 - 2 } else { en as i64 - 1 };
+            let mut p = first_end as i64;
+            while p <= last_end {
+                let pu = p as usize;
+                if pu + 1 >= k { if let Some((can, _)) = pack(&contig[pu + 1 - k..pu + 1]) { if spl.contains(&can) { ok = false; why = format!("missed split at {}", pu); } } }
+                p += 1;
+            }
+        }
+    }
+    let js: Vec<Value> = segs.iter().map(|s| json!({"data": s.data, "front": s.front_kmer, "back": s.back_kmer, "front_dir": s.front_kmer_is_dir, "back_dir": s.back_kmer_is_dir})).collect();
+    json!({ "segments": js, "ok": ok, "why": why })
+}
+
+// ---------------------------------------------------------------- C07 range / length queries
+#[cfg(ekg_ragc_verif)]
+pub fn reader_over_segments(k: u32, segs: &[(Vec<u8>, bool)]) -> ragc_core::Decompressor {
+    use ragc_common::{Archive, CollectionV3};
+    let mut coll = CollectionV3::new();
+    coll.register_sample_contig("s", "s").unwrap();
+    let mut cache = std::collections::HashMap::new();
+    for (i, (data, rc)) in segs.iter().enumerate() {
+        coll.add_segment_placed("s", "s", i, 16 + i as u32, 0, *rc, data.len() as u32).unwrap();
+        cache.insert(16 + i as u32, data.clone());
+    }
+    ragc_core::Decompressor::verif_from_parts(Archive::new_reader(), coll, k, 20, cache)
+}
+
+#[cfg(ekg_ragc_verif)]
+pub fn range_query(c: &Value) -> Value {
+    let k = c["k"].as_u64().unwrap() as u32;
+    let segs: Vec<(Vec<u8>, bool)> = c["segments"].as_array().unwrap().iter().map(|s| (bytes(&s["data"]), s["rc"].as_bool().unwrap())).collect();
+    let start: usize = c["start"].as_str().map(|s| s.parse().unwrap()).unwrap_or_else(|| c["start"].as_u64().unwrap() as usize);
+    let end: usize = c["end"].as_str().map(|s| s.parse().unwrap()).unwrap_or_else(|| c["end"].as_u64().unwrap() as usize);
+    let mut d = reader_over_segments(k, &segs);
+    let full = d.get_contig("s", "s").unwrap();
+    let len = d.get_contig_length("s", "s").unwrap();
+    let range = d.get_contig_range("s", "s", start, end).unwrap();
+    let e = end.min(full.len());
+    let expect: Vec<u8> = if start >= end || start >= full.len() { vec![] } else { full[start..e].to_vec() };
+    json!({ "full": full, "len": len, "range": range, "ok": len == full.len() && range == expect })
 }
